@@ -289,6 +289,69 @@ def real_pool_smoke(c, rng, n):
             return
 
 
+def deep_wiring_leg(c):
+    """The wiring inside Deep: the delivery the application hands over goes through the task handler that shutdown()
+    drains and closes - a delivery in flight holds shutdown() back, and one handed over afterwards is refused."""
+    import time
+    from .. import lifecycle_drv as L
+    from deep.api.tracepoint.eventsnapshot import EventSnapshot
+    from deep.api.tracepoint.tracepoint_config import TracePointConfig
+    from deep.api.resource import Resource
+    wd = tlc.scratch('c09w_')
+    out = {}
+
+    def body():
+        sysm = L.LifeSystem(wd, True, 'None', 'None')
+        problems = []
+        try:
+            sysm.start()
+            gate = threading.Event()
+            snap = EventSnapshot(TracePointConfig('x', 'f.py', 1, {}, [], []), 1, Resource.create(), [], {})
+            snap._id = 2001
+            sysm.send_blocks[2001] = gate
+            main = threading.get_ident()
+            sysm.deep.push.push_snapshot(snap)
+            done = threading.Event()
+
+            def sd():
+                try:
+                    sysm.deep.shutdown()
+                finally:
+                    done.set()
+            th = threading.Thread(target=sd)
+            th.start()
+            early = done.wait(0.5)                # the send is still held: shutdown() must be waiting for it
+            if early:
+                problems.append('shutdown() returned while a delivery handed over before it was still in flight')
+            gate.set()
+            if not done.wait(20):
+                problems.append('shutdown() did not return after the delivery had finished')
+            if sysm.sent.count((2001).to_bytes(16, 'big')) != 1:
+                problems.append('the delivery in flight at shutdown was sent %d time(s)' % sysm.sent.count((2001).to_bytes(16, 'big')))
+            late = EventSnapshot(TracePointConfig('x', 'f.py', 1, {}, [], []), 1, Resource.create(), [], {})
+            late._id = 2002
+            try:
+                sysm.deep.push.push_snapshot(late)
+                time.sleep(0.2)
+                problems.append('a delivery handed over after shutdown() was accepted%s' % (
+                    ' and sent' if (2002).to_bytes(16, 'big') in sysm.sent else ' silently'))
+            except BaseException:
+                pass
+        finally:
+            sysm.close()
+        out['problems'] = problems
+    th = threading.Thread(target=body)
+    th.start()
+    th.join(90)
+    if 'problems' not in out:
+        raise tlc.MachineryError('Deep wiring case did not finish')
+    c.traces_validated += 1
+    c.note_case(key=('deep-wiring',), nontrivial=True)
+    if out['problems']:
+        p_ = c.save_replay({'direction': 'C2S', 'kind': 'deep-wiring', 'problems': out['problems']})
+        c.violation('delivery through the Deep object: %s' % out['problems'], p_)
+
+
 def run(c):
     quick = c.tier == 'quick'
     rng = random.Random(c.seed)
@@ -313,6 +376,7 @@ def run(c):
     explore(c, [SCRIPTS[6]] + SCRIPTS[1:3] if quick else [SCRIPTS[6]] + SCRIPTS[:5], line_level=True, max_preemptions=1 if quick else 2,
             max_runs=200 if quick else 3000, kind='line-schedule')
     real_pool_smoke(c, rng, 15 if quick else 150)
+    deep_wiring_leg(c)
 
 
 if __name__ == '__main__':
